@@ -25,6 +25,55 @@ def rows_of(cls, N, r):
     return {'SS': range(0, r), 'AS': range(r, N), 'SD': range(N, N + r), 'AD': range(N + r, 2 * N)}[cls]
 
 
+import copy
+
+
+class _Subst(ast.NodeTransformer):
+    def __init__(self, mapping):
+        self.mapping = mapping
+
+    def visit_Name(self, node):
+        if node.id in self.mapping:
+            return copy.deepcopy(self.mapping[node.id])
+        return node
+
+
+def expand_locals(run, f, conds, names, use_ctx, rule='R9.stale'):
+    """Replace locals such as `na = N + r` in the guards by their definition; a definition that was evaluated before a loop
+    in which one of its inputs (the rank r) changes is stale at the use inside that loop: that is a violation."""
+    out = []
+    for test, pol in conds:
+        mapping = {}
+        for n in ast.walk(test):
+            if isinstance(n, ast.Name) and n.id not in names and n.id not in f.params:
+                defs = [(st, ctx) for st, ctx in walk(f.node) if isinstance(st, ast.Assign) and len(st.targets) == 1
+                        and isinstance(st.targets[0], ast.Name) and st.targets[0].id == n.id]
+                if len(defs) != 1:
+                    continue
+                dst, dctx = defs[0]
+                rhs_names = {x.id for x in ast.walk(dst.value) if isinstance(x, ast.Name)}
+                if not rhs_names or not rhs_names <= set(names) or any(isinstance(x, ast.Call) for x in ast.walk(dst.value)):
+                    continue
+                mapping[n.id] = dst.value
+                # staleness: an input is reassigned inside a loop that contains the use but not the definition
+                for lp in use_ctx.loops:
+                    if lp in dctx.loops:
+                        continue
+                    for s2 in ast.walk(lp):
+                        tgt = None
+                        if isinstance(s2, ast.AugAssign) and isinstance(s2.target, ast.Name):
+                            tgt = s2.target.id
+                        elif isinstance(s2, ast.Assign) and len(s2.targets) == 1 and isinstance(s2.targets[0], ast.Name):
+                            tgt = s2.targets[0].id
+                        if tgt in rhs_names:
+                            run.violation(rule, f, dst, '`%s` is computed once before the loop, but `%s` changes inside the loop (line %d): the row '
+                                          'classes tested with `%s` later in the loop are those of the old rank' % (norm(dst), tgt, s2.lineno, n.id))
+        if mapping:
+            test = ast.fix_missing_locations(_Subst(mapping).visit(copy.deepcopy(test)))
+        out.append((test, pol))
+    return tuple(out)
+
+
 def relevant(conds, names):
     """Conditions that only mention the given names (and constants)."""
     out = []
@@ -76,7 +125,10 @@ class Kernel:
         self.pivot_stmt = None
         self.replace_stmt = None
         self.block = None
+        self.extend_flag = None
+        self.update_flag = None
         self.find()
+        self.find_flags()
 
     def find(self):
         f = self.f
@@ -101,6 +153,31 @@ class Kernel:
                     self.row_loop, self.jvar = lp, lp.target.id
 
 
+def _find_flags(self):
+    """update flag = Name tested by the `if` that owns the replacement block; extend flag = Name tested by the `if`
+    that owns the rank decrement."""
+    f = self.f
+    for st, ctx in walk(f.node):
+        if isinstance(st, ast.If) and self.block is not None and st.body is self.block and isinstance(st.test, ast.Name):
+            self.update_flag = st.test.id
+        if isinstance(st, ast.If) and isinstance(st.test, ast.Name):
+            for s2 in st.body:
+                if (isinstance(s2, ast.AugAssign) and isinstance(s2.target, ast.Name) and s2.target.id == 'r') or \
+                        (isinstance(s2, ast.Assign) and norm(s2.targets[0]) == 'r'):
+                    self.extend_flag = st.test.id
+
+
+    if self.extend_flag is None and self.block is not None:
+        # the decrement may be missing (that is what the block model then reports): the flag is the plain name tested
+        # inside the replacement block
+        for s2 in self.block:
+            if isinstance(s2, ast.If) and isinstance(s2.test, ast.Name):
+                self.extend_flag = s2.test.id
+
+
+Kernel.find_flags = _find_flags
+
+
 def check_loop_guards(run, f, rule='R9', signed=True, expect_kernel=False):
     """Guards of a loop-form kernel (numba): pivot, extend, phase update, accumulation / zero guard."""
     k = Kernel(f)
@@ -113,7 +190,7 @@ def check_loop_guards(run, f, rule='R9', signed=True, expect_kernel=False):
     j = k.jvar
     names = (j, 'N', 'r')
     # F1 pivot
-    conds = relevant(k.pivot_ctx.conds, names)
+    conds = relevant(expand_locals(run, f, k.pivot_ctx.conds, names, k.pivot_ctx), names)
     acc, mixed, empty = class_set(conds, j, fixed_r=fixed_r)
     want = {'SS', 'AS', 'SD'} - empty
     _report(run, rule + '.pivot', f, k.pivot_stmt, conds, acc - empty, mixed, want,
@@ -125,32 +202,56 @@ def check_loop_guards(run, f, rule='R9', signed=True, expect_kernel=False):
     run.check(bool(acqs), rule + '.pivot', f, k.pivot_stmt, 'the pivot must be a row that anticommutes with the observable')
     # F2 extend flag
     for st, ctx in walk(f.node):
-        if isinstance(st, ast.Assign) and isinstance(st.targets[0], ast.Name) and st.targets[0].id == 'extend' \
-                and isinstance(st.value, ast.Constant) and st.value.value is True:
-            c2 = relevant(ctx.conds, names)
+        if k.extend_flag is not None and isinstance(st, ast.Assign) and isinstance(st.targets[0], ast.Name) \
+                and st.targets[0].id == k.extend_flag and isinstance(st.value, ast.Constant) and st.value.value is True:
+            c2 = relevant(expand_locals(run, f, ctx.conds, names, ctx), names)
             acc, mixed, empty = class_set(c2, j, fixed_r=fixed_r)
             _report(run, rule + '.extend', f, st, c2, acc - empty, mixed, {'SS', 'SD'} - empty,
                     'the rank drops exactly when the pivot is a standby row')
+    # F3' every anticommuting row after the pivot is multiplied by the pivot row, whatever its class
+    for st, ctx in walk(f.node):
+        if isinstance(st, ast.Assign) and isinstance(st.targets[0], ast.Subscript) and isinstance(st.targets[0].value, ast.Name) \
+                and st.targets[0].value.id == k.tab and norm(st.targets[0].slice) == j and ctx.loops and ctx.loops[-1] is k.row_loop \
+                and isinstance(st.value, ast.BinOp):
+            cu = relevant(expand_locals(run, f, ctx.conds, names, ctx), names)
+            acc, mixed, empty = class_set(cu, j, fixed_r=fixed_r)
+            _report(run, rule + '.update', f, st, cu, acc - empty, mixed, set(CLASSES) - empty,
+                    'every later row that anticommutes with the observable (stabilizer or destabilizer) must be multiplied by the pivot row, '
+                    'otherwise it keeps anticommuting with the new stabilizer')
     # F3 stabilizer phase update
     if signed:
         for st, ctx in walk(f.node):
             if isinstance(st, ast.Assign) and isinstance(st.targets[0], ast.Subscript) \
                     and norm(st.targets[0].slice) == j and ctx.loops and ctx.loops[-1] is k.row_loop \
                     and isinstance(st.targets[0].value, ast.Name) and st.targets[0].value.id.startswith('ps'):
-                c3 = relevant(ctx.conds, names)
+                c3 = relevant(expand_locals(run, f, ctx.conds, names, ctx), names)
                 acc, mixed, empty = class_set(c3, j, fixed_r=fixed_r)
                 _report(run, rule + '.phase', f, st, c3, acc - empty, mixed, {'SS', 'AS'} - empty,
                         'phases are tracked for stabilizer rows (j < N) and only for them')
         # F4 accumulation of the stabilizer selected by an active destabilizer
+        acc_stmts = _accumulation_stmts(f)
         for st, ctx in walk(f.node):
-            if isinstance(st, ast.Assign) and isinstance(st.targets[0], ast.Name) and st.targets[0].id in ('pa', 'ga') \
-                    and ctx.loops and ctx.loops[-1] is k.row_loop:
-                c4 = relevant(ctx.conds, names)
+            if id(st) in acc_stmts and ctx.loops and ctx.loops[-1] is k.row_loop:
+                c4 = relevant(expand_locals(run, f, ctx.conds, names, ctx), names)
                 acc, mixed, empty = class_set(c4, j, fixed_r=fixed_r)
                 _report(run, rule + '.accum', f, st, c4, acc - empty, mixed, {'AD'} - empty,
                         'only active destabilizers select a stabilizer component of the observable')
                 _partner_reads(run, rule + '.accum', f, st, j)
     return k
+
+
+def _accumulation_stmts(f):
+    """ids of the statements that accumulate a stabilizer product into scalar-named accumulators (ga / pa):
+    product sites whose target is a plain Name, and their phase companions."""
+    from . import pair
+    out = set()
+    for s in pair.find_sites(f):
+        if isinstance(s.target, ast.Name) and s.acc is not None:
+            out.add(id(s.st))
+            c = pair.find_companion(s)
+            if c is not None:
+                out.add(id(c))
+    return out
 
 
 def _partner_reads(run, rule, f, st, j):
@@ -210,7 +311,7 @@ def check_expect_guards(run, f, rule='R9'):
                           for t, pol in ctx.conds), rule + '.zero', f, st,
                       'the zero must be conditioned on anticommutation with the row')
             n += 1
-        if isinstance(st, ast.Assign) and isinstance(st.targets[0], ast.Name) and st.targets[0].id in ('pa', 'ga'):
+        if id(st) in _accumulation_stmts(f):
             c = relevant(ctx.conds, names)
             acc, mixed, empty = class_set(c, j)
             _report(run, rule + '.accum', f, st, c, acc - empty, mixed, {'AD'} - empty,
@@ -350,7 +451,11 @@ def check_block(run, f, k, rule='R9.block', tc_inline_extend=False, signed=True)
                         ncases += 1
                         rows = ['row%d' % i for i in range(2 * N)]
                         standby = cls in ('SS', 'SD')
-                        env = {'N': N, 'r': r, pv: p, 'k': 0, 'update': True, 'extend': standby, 'Ng': 2 * N}
+                        env = {'N': N, 'r': r, pv: p, 'k': 0, 'Ng': 2 * N}
+                        if k.update_flag:
+                            env[k.update_flag] = True
+                        if k.extend_flag:
+                            env[k.extend_flag] = standby
                         phase_at = run_block(k.block, env, rows, tab, pv)
                         r_new = env.get('r', r)
                         why = _post(N, r, r_new, p, cls, rows, phase_at, signed)
